@@ -18,7 +18,9 @@ site('pp.c', 'define', 'error', '__VA_ARGS__ can only be used in variadic functi
      T('pp', '#define M_ __VA_ARGS__'), T('pp', '#define M_() (__VA_ARGS__)'), n=2)
 site('pp.c', 'define', 'error', "redefinition of macro '%s'",
      T('pp', '#define M_ 1\n#define M_ 2', "'M_'"), T('pp', '#define M_(a) a\n#define M_(b) b', "'M_'"), T('pp', '#define M_ (1)\n#define M_() (1)', "'M_'"),
-     T('pp', '#define M_ 1 + 2\n#define M_ 1+2', "'M_'"), T('pp', '#define M_(a) a\n#define M_(a, ...) a', "'M_'"))
+     T('pp', '#define M_ 1 + 2\n#define M_ 1+2', "'M_'"), T('pp', '#define M_(a) a\n#define M_(a, ...) a', "'M_'"),
+     # same number of parameters, the last one named in one definition and variadic in the other (both orders), body not using it
+     T('pp', '#define M_(a,b) a\n#define M_(a,...) a', "'M_'"), T('pp', '#define M_(a,...) a\n#define M_(a,b) a', "'M_'"), T('pp', '#define M_(b) 1\n#define M_(...) 1', "'M_'"))
 site('pp.c', 'define', 'tokencheck', "TCOMMA or ')' after macro parameter", T('pp', '#define M_(a b) a'), T('pp', '#define M_(a'))
 site('pp.c', 'define', 'tokencheck', 'TIDENT after #define', T('pp', '#define 3'), T('pp', '#define'), T('pp', '#define "x" 1'), T('pp', '#define (M_) 1'))
 site('pp.c', 'define', 'tokencheck', "TIDENT after '#' operator", T('pp', '#define M_(a) # 1'), T('pp', '#define M_(a) a #'))
@@ -83,7 +85,8 @@ site('qbe.c', 'convert', 'fatal', 'internal error; unsupported conversion', J('i
 site('qbe.c', 'dataitem', 'assert', '0', J('internal', 'string element widths are 1, 2, 4'))
 site('qbe.c', 'dataitem', 'error', 'initializer is not a constant expression',
      T('decl', 'static int x_ = h_v;'), T('decl', 'static int x_ = h_v + 1;'), T('bdecl', 'static int *x_ = &h_l;'),
-     T('decl', 'static int *x_ = &ip_[1];', pre=PQ), T('decl', 'static int x_ = h_sink(1);'), T('decl', 'static int x_ = (h_v, 1);', skip=('*',)),
+     T('decl', 'static int *x_ = &ip_[1];', pre=PQ), T('decl', 'static int *x_ = &tl_;', pre='_Thread_local int tl_;', skip=('B*',)),
+     T('decl', 'static int *x_ = tla_ + 1;', pre='_Thread_local int tla_[4];', skip=('B*',)), T('decl', 'static int x_ = h_sink(1);'), T('decl', 'static int x_ = (h_v, 1);', skip=('*',)),
      T('decl', 'static long x_ = (long)&h_v * 2;'), T('decl', 'static int *x_ = 1 ? ip_ : 0;', pre=PQ),
      T('fdecl', 'int x_ = h_v;'), T('decl', 'static struct s_ x_ = { 1, { h_v } };', pre=PQ),
      T('expr', '(int *)&(static int){ h_v } == 0', gcc=True, skip=('*',)), n=4)
